@@ -206,6 +206,11 @@ func (c *C05Case) Run() string {
 	pan := try(func() {
 		switch c.Walk {
 		case "forward":
+			// an unmasked tensor has no invalid position: asking for one finds none and does not move the walk
+			if i, _, err := it.NextInvalid(); err == nil {
+				msg = fmt.Sprintf("%s: NextInvalid on an unmasked tensor found position %d", w.desc, i)
+				return
+			}
 			msg = w.full(false)
 		case "reverse":
 			it.SetReverse()
@@ -237,6 +242,72 @@ func (c *C05Case) Run() string {
 				it.Reset()
 				msg = w.full(false)
 			}
+		case "chan", "slice":
+			// the same walk delivered through a channel, or collected into a list of offsets and cut by a range
+			fi, ok := it.(*tensor.FlatIterator)
+			if !ok {
+				fi = tensor.FlatIteratorFromDense(t)
+			}
+			reverse := c.K%2 == 1
+			if reverse {
+				fi.SetReverse()
+			}
+			expect := func(got []int, pick []int, what string) string {
+				if len(got) != len(pick) {
+					return fmt.Sprintf("%s: %s delivers %d offsets %v, expected %d", w.desc, what, len(got), got, len(pick))
+				}
+				for i, k := range pick {
+					lk := k
+					if reverse {
+						lk = n - 1 - k
+					}
+					o := got[i]
+					if o < 0 || o >= len(w.window) || !bitEqVal(w.window[o], arr.E[lk]) || (w.offs != nil && o != w.offs[lk]) {
+						return fmt.Sprintf("%s: %s: entry %d is offset %d, which is not the element of logical position %d (reverse=%v)", w.desc, what, i, o, lk, reverse)
+					}
+				}
+				return ""
+			}
+			all := make([]int, n)
+			for i := range all {
+				all[i] = i
+			}
+			if c.Walk == "chan" {
+				var got []int
+				for o := range fi.Chan() {
+					got = append(got, o)
+					if len(got) > n+2 {
+						break
+					}
+				}
+				msg = expect(got, all, "Chan()")
+				return
+			}
+			got, err := fi.Slice(nil)
+			if _, noop := err.(tensor.NoOpError); noop {
+				err = nil // the exhaustion that ends the collection is passed on; by the library's convention it is not a failure
+			}
+			if err != nil {
+				msg = fmt.Sprintf("%s: Slice(nil) failed: %v", w.desc, err)
+				return
+			}
+			if msg = expect(got, all, "Slice(nil)"); msg != "" || n == 0 {
+				return
+			}
+			fi.Reset()
+			a := k % n
+			bnd := a + 1 + (c.K/7)%(n-a)
+			st := 1 + (c.K/3)%3
+			var pick []int
+			for i := a; i < bnd; i += st {
+				pick = append(pick, i)
+			}
+			got, err = fi.Slice(RS{a, bnd, st})
+			if err != nil {
+				msg = fmt.Sprintf("%s: Slice([%d:%d:%d]) failed: %v", w.desc, a, bnd, st, err)
+				return
+			}
+			msg = expect(got, pick, fmt.Sprintf("Slice([%d:%d:%d])", a, bnd, st))
 		case "prog":
 			reverse, pos := false, 0
 			for si, sg := range c.Prog {
@@ -455,6 +526,10 @@ type C05Multi struct {
 	Rev   bool     `json:"rev"`
 	// Forms: for a vector of n elements, the shape each tensor gives it: 0 (n), 1 (n,1), 2 (1,n)
 	Forms []int `json:"forms,omitempty"`
+	// Prog: a history on the one iterator (steps, then reset | start | reverse | forward), as for the flat iterator
+	Prog []C05Seg `json:"prog,omitempty"`
+	// Cons: 0 MultIteratorFromDense, 1 IteratorFromDense, 2 NewIterator(access patterns), 3 NewMultIterator
+	Cons int `json:"cons,omitempty"`
 }
 
 func init() { register("C05.multi", func() Case { return &C05Multi{} }) }
@@ -463,7 +538,7 @@ func (c *C05Multi) NTKey() string {
 	if nonUnit(c.Shape) < 2 {
 		return ""
 	}
-	return fmt.Sprintf("%v|%v|%v|%v", c.Shape, c.Ls, c.Rev, c.Forms)
+	return fmt.Sprintf("%v|%v|%v|%v|%v|%d", c.Shape, c.Ls, c.Rev, c.Forms, c.Prog, c.Cons)
 }
 
 func (c *C05Multi) Run() string {
@@ -499,26 +574,103 @@ func (c *C05Multi) Run() string {
 	pass := 0
 	walk := func() {
 		it := tensor.MultIteratorFromDense(ts...)
+		if c.Cons > 0 {
+			// the other constructors of the same iterator
+			rec.Class(fmt.Sprintf("multi-cons:%d", c.Cons))
+			aps := make([]*tensor.AP, len(ts))
+			for i, x := range ts {
+				aps[i] = x.Info()
+			}
+			switch {
+			case c.Cons == 1 && len(ts) > 1:
+				it = tensor.IteratorFromDense(ts...).(*tensor.MultIterator)
+			case c.Cons == 2 && len(ts) > 1:
+				it = tensor.NewIterator(aps...).(*tensor.MultIterator)
+			default:
+				it = tensor.NewMultIterator(aps...)
+			}
+		}
 		if c.Rev {
 			it.SetReverse()
 		}
 		n := prod(c.Shape)
-		for k := 0; k < n; k++ {
-			lk := k
-			if c.Rev {
-				lk = n - 1 - k
-			}
-			if _, err := it.Next(); err != nil {
-				msg = fmt.Sprintf("%s: Next failed at step %d of %d: %v", desc, k, n, err)
-				return
-			}
-			for j := range ts {
-				o := it.LastIndex(j)
-				if o < 0 || o >= len(windows[j]) || !bitEqVal(windows[j][o], arrs[j].E[lk]) {
-					msg = fmt.Sprintf("%s: step %d: LastIndex(%d) = %d does not address tensor %d's element of logical position %d (strides %v)", desc, k, j, o, j, lk, ts[j].Strides())
-					return
+		reverse := c.Rev
+		steps := func(from, to int) bool {
+			for k := from; k < to; k++ {
+				lk := k
+				if reverse {
+					lk = n - 1 - k
+				}
+				if len(c.Prog) > 0 && it.Done() {
+					msg = fmt.Sprintf("%s: Done() before step %d of %d (reverse=%v)", desc, k, n, reverse)
+					return false
+				}
+				if _, err := it.Next(); err != nil {
+					msg = fmt.Sprintf("%s: Next failed at step %d of %d: %v", desc, k, n, err)
+					return false
+				}
+				for j := range ts {
+					o := it.LastIndex(j)
+					if o < 0 || o >= len(windows[j]) || !bitEqVal(windows[j][o], arrs[j].E[lk]) {
+						msg = fmt.Sprintf("%s: step %d (reverse=%v): LastIndex(%d) = %d does not address tensor %d's element of logical position %d (strides %v)", desc, k, reverse, j, o, j, lk, ts[j].Strides())
+						return false
+					}
 				}
 			}
+			return true
+		}
+		pos := 0
+		// a history on the one iterator: partial walks, then a restart (Reset, Start) or a change of direction
+		for si, sg := range c.Prog {
+			rec.Class("multi-history:" + sg.Then)
+			to := pos + sg.N
+			if sg.N < 0 || to > n {
+				to = n
+			}
+			if !steps(pos, to) {
+				msg = fmt.Sprintf("segment %d of %v: %s", si, c.Prog, msg)
+				return
+			}
+			pos = to
+			switch sg.Then {
+			case "reset":
+				it.Reset()
+				pos = 0
+			case "reverse":
+				it.SetReverse()
+				it.Reset()
+				reverse, pos = true, 0
+			case "forward":
+				it.SetForward()
+				it.Reset()
+				reverse, pos = false, 0
+			case "start":
+				if n > 0 {
+					if _, err := it.Start(); err != nil {
+						msg = fmt.Sprintf("%s: segment %d of %v: Start() failed: %v", desc, si, c.Prog, err)
+						return
+					}
+					lk := 0
+					if reverse {
+						lk = n - 1
+					}
+					for j := range ts {
+						o := it.LastIndex(j)
+						if o < 0 || o >= len(windows[j]) || !bitEqVal(windows[j][o], arrs[j].E[lk]) {
+							msg = fmt.Sprintf("%s: segment %d of %v: after Start() LastIndex(%d) = %d is not tensor %d's first element of the walk (reverse=%v)", desc, si, c.Prog, j, o, j, reverse)
+							return
+						}
+					}
+					pos = 1
+				}
+			}
+		}
+		if !steps(pos, n) {
+			return
+		}
+		if len(c.Prog) > 0 && !it.Done() {
+			msg = fmt.Sprintf("%s: not Done() after the last element (reverse=%v, history %v)", desc, reverse, c.Prog)
+			return
 		}
 		if _, err := it.Next(); err == nil {
 			msg = desc + ": Next after exhaustion did not report it"
@@ -566,7 +718,7 @@ func genC05Shape(rt *rapid.T) []int {
 }
 
 func TestC05(t *testing.T) {
-	walks := []string{"forward", "reverse", "reset", "revreset", "switch", "switchback", "twice", "prog"}
+	walks := []string{"forward", "reverse", "reset", "revreset", "switch", "switchback", "twice", "prog", "chan", "slice"}
 	for _, lk := range c05Layouts {
 		for _, walk := range walks {
 			lk, walk := lk, walk
@@ -645,6 +797,27 @@ func TestC05(t *testing.T) {
 				shape[0], shape[1] = shape[1], shape[0]
 			}
 			return &C05Case{Shape: shape, L: genLayoutKind(rt, lk, 2, "l"), Via: rapid.SampledFrom([]string{"flat", "iterator", "newiter"}).Draw(rt, "via"), Walk: rapid.SampledFrom([]string{"forward", "reverse", "twice"}).Draw(rt, "walk")}
+		})
+	}
+	// multi-iterator histories: restarted, started, turned around
+	for _, nt := range []int{1, 2, 3} {
+		nt := nt
+		cell(t, "C05", "C05.multi", fmt.Sprintf("multi-history/%d", nt), nCases(100, 4000), func(rt *rapid.T) Case {
+			shape := genShapeMin2(rt, 1, 4, 3, "s")
+			c := &C05Multi{Shape: shape, Rev: rapid.IntRange(0, 4).Draw(rt, "rev") == 0}
+			for i := 0; i < nt; i++ {
+				lk := rapid.SampledFrom([]string{"contig", "lazyT", "sliced", "stepsliced", "materialized", "slicedT"}).Draw(rt, "lk")
+				c.Ls = append(c.Ls, genLayoutKind(rt, lk, len(shape), fmt.Sprintf("l%d", i)))
+			}
+			for i, ns := 0, rapid.IntRange(1, 4).Draw(rt, "nseg"); i < ns; i++ {
+				sg := C05Seg{N: rapid.IntRange(0, prod(shape)+1).Draw(rt, "n"), Then: rapid.SampledFrom([]string{"reset", "reverse", "forward", "start", "reset", "start"}).Draw(rt, "then")}
+				if rapid.IntRange(0, 2).Draw(rt, "exhaust") == 0 {
+					sg.N = -1
+				}
+				c.Prog = append(c.Prog, sg)
+			}
+			c.Cons = rapid.IntRange(0, 3).Draw(rt, "cons")
+			return c
 		})
 	}
 	// multi-iterator
